@@ -148,6 +148,9 @@ class _SymMixin:
     def __pos__(self):
         return self
 
+    def __abs__(self):
+        return type(self)(z3.If(self.z >= 0, self.z, -self.z))
+
     def __eq__(self, o):
         try:
             return _cmp(self, o, "eq")
